@@ -707,10 +707,14 @@ impl Screen {
             // don't even try to draw control characters
             return;
         }
+        // a cell holds at most a double-width character: anything that
+        // width() reports as wider than that (it does for a few characters)
+        // is drawn, and has to be redrawn, as a double-width one
         let width = width
             .unwrap_or(1)
+            .min(2)
             .try_into()
-            // width() can only return 0, 1, or 2
+            // at most 2 after the clamp above
             .unwrap();
         if width > size.cols {
             // a character wider than the whole screen can't be drawn
